@@ -836,8 +836,11 @@ def req_C09(r, tier):
         sig = ed_sign(sd, m, ctx)
         Rb, S = sig[:32], le(sig[32:])
         if mode == "pure":
+            # every class through BOTH import paths of key and signature (from_bytes, and TryFrom<&[u8]> / from_slice)
             V = lambda lab, pkb, mb, sg: [("eds.verify:" + lab, "eds.verify %s %s %s" % (pkb.hex(), hx(mb), sg.hex())),
-                                          ("eds.verify_strict:" + lab, "eds.verify_strict %s %s %s" % (pkb.hex(), hx(mb), sg.hex()))]
+                                          ("eds.verify_strict:" + lab, "eds.verify_strict %s %s %s" % (pkb.hex(), hx(mb), sg.hex())),
+                                          ("eds.verify_slice:" + lab, "eds.verify_slice %s %s %s" % (pkb.hex(), hx(mb), sg.hex())),
+                                          ("eds.verify_strict_slice:" + lab, "eds.verify_strict_slice %s %s %s" % (pkb.hex(), hx(mb), sg.hex()))]
         else:
             V = lambda lab, pkb, mb, sg: [("eds.verify_ph:" + lab, "eds.verify_ph %s %s %s %s" % (pkb.hex(), hx(mb), hx(ctx), sg.hex())),
                                           ("eds.verify_ph_strict:" + lab, "eds.verify_ph_strict %s %s %s %s" % (pkb.hex(), hx(mb), hx(ctx), sg.hex()))]
@@ -905,6 +908,39 @@ def req_C09(r, tier):
     # vk decoding
     for lt, tb in tor:
         out.append(("eds.vk:" + lt, "eds.vk " + tb.hex()))
+        out.append(("eds.vk_slice:" + lt, "eds.vk_slice " + tb.hex()))
+    # non-canonical key encodings (y >= p, x = 0 with the sign bit): the key bytes must be kept AS GIVEN by every import path
+    for lab, b in point_pool(r, 0):
+        if lab.startswith("noncanon"):
+            out.append(("eds.vk:" + lab[:14], "eds.vk " + b.hex()))
+            out.append(("eds.vk_slice:" + lab[:14], "eds.vk_slice " + b.hex()))
+            msg = r.bytes(5)
+            # with a SMALL-ORDER key (order n | 8) a valid signature can be forged knowing nothing: pick S, try R_j = [S]B - [j]A and
+            # keep the j with k(R_j, A_bytes, m) = j mod n.  It is valid for the key bytes AS GIVEN (k hashes them) and, in general,
+            # not for their canonical re-encoding
+            Apt = decompress(b)
+            mult, n = Apt, 1
+            while mult != ZERO and n <= 8:
+                mult = add(mult, Apt); n += 1
+            if n <= 8:
+                made = 0
+                for tries in range(40):
+                    S = r.below(L)
+                    SB = smul(S, B)
+                    m2 = msg + bytes([tries])
+                    for jj in range(n):
+                        Rj = compress(add(SB, neg(smul(jj, Apt))))
+                        if ed_challenge(Rj, b, m2, None) % n == jj:
+                            sg = Rj + tole(S)
+                            for op in ("eds.verify", "eds.verify_slice"):
+                                out.append(("%s:noncanon_key_valid" % op, "%s %s %s %s" % (op, b.hex(), hx(m2), sg.hex())))
+                            made += 1
+                            break
+                    if made >= 3:
+                        break
+            sgr = r.bytes(32) + tole(r.below(L))
+            for op in ("eds.verify", "eds.verify_slice", "eds.verify_strict", "eds.verify_strict_slice"):
+                out.append(("%s:noncanon_key_random" % op, "%s %s %s %s" % (op, b.hex(), hx(msg), sgr.hex())))
     for lab, b in bad_point_encodings(r, sz(tier, 10, 100)):
         out.append(("eds.vk:offcurve", "eds.vk " + b.hex()))
         out.append(("eds.verify:badkey", "eds.verify %s %s %s" % (b.hex(), "00", r.bytes(64).hex())))
@@ -1187,6 +1223,20 @@ def req_C15(r, tier):
     out.append(("eds.batch:empty", "eds.batch - - -"))
     out.append(("eds.batch:garbage", "eds.batch %s %s %s" % (lst(hx(t[1]) for t in tr), lst(r.bytes(64).hex() for t in tr), lst(t[3].hex() for t in tr))))
     out.append(("eds.batch:Snoncanon", "eds.batch %s %s %s" % (lst(hx(t[1]) for t in tr), lst((t[2][:32] + tole((1 << 256) - 1)).hex() for t in tr), lst(t[3].hex() for t in tr))))
+    # batch operations with the exceptional element (zero / identity coset) at EVERY position, incl. first, last, all
+    rid, rb = ris_encode(ZERO).hex(), [ris_encode(smul(k, B)).hex() for k in (1, 2, 3)]
+    for n in range(1, 5):
+        for pos in range(n):
+            ps = [rb[i % 3] for i in range(n)]
+            ps[pos] = rid
+            out.append(("ris.double_compress_batch:id_at_%d_of_%d" % (pos, n), "ris.double_compress_batch " + lst(ps)))
+            xs = [H(3 + i) for i in range(n)]
+            xs[pos] = H(0)
+            out.append(("fe.batch_invert:zero_at_%d_of_%d" % (pos, n), "fe.batch_invert " + lst(xs)))
+        out.append(("ris.double_compress_batch:all_id:n=%d" % n, "ris.double_compress_batch " + lst([rid] * n)))
+        out.append(("fe.batch_invert:all_zero:n=%d" % n, "fe.batch_invert " + lst([H(0)] * n)))
+    out.append(("ris.double_compress_batch:empty", "ris.double_compress_batch -"))
+    out.append(("fe.batch_invert:empty", "fe.batch_invert -"))
     # scalar multiplications on algebraically exceptional scalar tuples (all-zero recodings etc.)
     out += exceptional_scalar_mul(r)
     # over-long prehash contexts on the VERIFY side (signing refuses them)
